@@ -28,7 +28,7 @@ func init() {
 		Run: runRejectFirst,
 	})
 	register(&Rule{
-		ID: "C16.narrowing-exact", Prop: "C16", Also: []string{"C18", "C02", "C03"}, Floor: 8, Controls: 1,
+		ID: "C16.narrowing-exact", Prop: "C16", Also: []string{"C18", "C02", "C03", "C13", "C14"}, Floor: 8, Controls: 1,
 		Doc: "a value obtained by narrowing a big.Float (Int64 / Uint64 / Float64 / Float32) is used only where the accuracy returned by the same call was compared with big.Exact on the way (an encoder that writes, or a bridge that stores, an inexact narrowing changes the number silently); a narrowing whose accuracy is discarded must not reach an encoder, a reflect setter or a number constructor",
 		Run: runNarrowingExact,
 	})
